@@ -307,12 +307,14 @@ def _pick_values(g, k, extra=0):
 
 
 @st.composite
-def cases(draw, kind, precision, tdtypes):
+def cases(draw, kind, precision, tdtypes, pool_seed=0):
     seed64 = draw(st.integers(0, 2 ** 63))
     g = np.random.Generator(np.random.PCG64(seed64))
     is_attack = kind in ('tdpa', 'tstatic')
     single_word = kind in ('tbuild', 'tdpa', 'tstatic')
-    k = draw(st.sampled_from([1, 2, 2, 3, 3, 4, 5, 6, 8, 9, 10, 12, 20] if not single_word else [2, 2, 3, 3, 4, 5, 6, 9, 10]))
+    k = draw(st.sampled_from([1, 2, 2, 3, 3, 4, 5, 8, 9, 10, 20] if not single_word else [2, 2, 3, 3, 4, 5, 9, 10]))
+    # class lists come from a small per-unit pool (3 per k): the lookup function of a list is compiled once per process
+    gp = gen.rng(pool_seed, 'class-list-pool', k, draw(st.integers(0, 2)))
     rels = ['rename', 'rename', 'rename', 'drop', 'replace'] + (['superset', 'superset'] if kind in PART_KINDS + ('mia',) else [])
     rel = draw(st.sampled_from(rels))
     W = 1 if single_word else draw(st.integers(1, 3))
@@ -368,19 +370,19 @@ def cases(draw, kind, precision, tdtypes):
     # variant
     und_vals = list(range(k, k + n_und))
     if rel == 'rename':
-        vals = _pick_values(g, k, extra=n_und)
+        vals = _pick_values(gp, k, extra=2)
         ren = vals[:k]
         und_ren = vals[k:]
-        order = list(g.permutation(k))
+        order = list(gp.permutation(k))
         var_parts = [ren[i] for i in order]
         table = {i: ren[i] for i in range(k)}
         table.update({u: und_ren[j] for j, u in enumerate(und_vals)})
         var_lab = np.vectorize(lambda v: table[int(v)], otypes=['int64'])(lab)
         case['rename'] = ren
     elif rel == 'superset':
-        extra = [v for v in _pick_values(g, 6, 0) if v >= k + n_und][:draw(st.integers(1, 5))] or [k + n_und + 3]
+        extra = [v for v in _pick_values(gp, 6, 0) if v >= k + 2][:int(gp.integers(1, 6))] or [k + 5]
         var_parts = list(range(k)) + extra
-        if draw(st.booleans()):
+        if gp.integers(2):
             var_parts = extra + list(range(k))
         var_lab = lab.copy()
     elif rel == 'drop':
@@ -452,12 +454,12 @@ def auto_cases(draw, precision, tdtypes, kind, amax):
 
 
 def unit_relations(ctx, kind, precision, tdtypes, n):
-    hyp.run(ctx, cases(kind, precision, tdtypes), check_case, n, shrink_budget=40 if ctx.tier == 'quick' else 300)
+    hyp.run(ctx, cases(kind, precision, tdtypes, ctx.seed), check_case, n, shrink_budget=40 if ctx.tier == 'quick' else 300)
 
 
 def unit_family(ctx, kinds, precision, tdtypes, n):
     for i, kind in enumerate(kinds):
-        hyp.run(ctx, cases(kind, precision, tdtypes), check_case, n, shrink_budget=40 if ctx.tier == 'quick' else 300, seed_extra=i)
+        hyp.run(ctx, cases(kind, precision, tdtypes, ctx.seed), check_case, n, shrink_budget=40 if ctx.tier == 'quick' else 300, seed_extra=i)
 
 
 AUTO_MAX = [0, 1, 7, 8, 9, 10, 62, 63, 64, 65, 254, 255]
@@ -476,7 +478,7 @@ def unit_auto(ctx, precision, tdtypes, n):
 
 def units(tier):
     q = tier == 'quick'
-    n = 14 if q else 160
+    n = 120 if q else 1500
     us = []
     for i, (precision, tdts) in enumerate([('float32', ['uint8', 'float32']), ('float64', ['int16', 'float64']), ('float32', ['int8', 'float32']),
                                            ('float64', ['uint8', 'float32']), ('float64', ['uint16', 'float64']), ('float32', ['int32', 'float64'])]):
@@ -490,7 +492,7 @@ def units(tier):
         us.append({'name': 'tdpa-%s-%s' % (precision, '+'.join(tdts)), 'fn': 'unit_relations', 'kwargs': {'kind': 'tdpa', 'precision': precision, 'tdtypes': tdts, 'n': 2 * n}})
     us.append({'name': 'tstatic-float64', 'fn': 'unit_relations', 'kwargs': {'kind': 'tstatic', 'precision': 'float64', 'tdtypes': ['uint8', 'float64'], 'n': 2 * n}})
     for precision, tdts in [('float32', ['uint8', 'float32']), ('float64', ['int16', 'float64'])]:
-        us.append({'name': 'auto-%s' % precision, 'fn': 'unit_auto', 'kwargs': {'precision': precision, 'tdtypes': tdts, 'n': 1 if q else 10}})
+        us.append({'name': 'auto-%s' % precision, 'fn': 'unit_auto', 'kwargs': {'precision': precision, 'tdtypes': tdts, 'n': 3 if q else 30}})
     return us
 
 
